@@ -163,7 +163,13 @@ func Call(c *rosmar.Collection, in In) (out Out) {
 	case OSubDoc:
 		out.Cas, err = c.WriteSubDoc(ctx, in.Key, in.Path, 0, []byte(fmt.Sprintf("%q", in.Token)))
 	case OTouch:
-		_, err = c.Touch(in.Key, 0)
+		_, err = c.Touch(in.Key, in.Exp)
+	case OGetTouch:
+		var b []byte
+		b, out.Cas, err = c.GetAndTouchRaw(in.Key, in.Exp)
+		out.Body, out.HasBody = string(b), b != nil
+	case OGetExp:
+		out.Exp, err = c.GetExpiry(ctx, in.Key)
 	}
 	if err != nil {
 		out.Err = kv.ErrClass(err)
@@ -240,7 +246,7 @@ func genOp(r *rng.R, w Workload, client int, n *int, lastCas, staleCas map[strin
 		return In{Kind: OIncr, Key: key, Amt: uint64(1 + r.Intn(9)), Def: 1000}
 	}
 	key := rng.Pick(r, w.DocKeys)
-	kinds := []string{OGet, OGetX, OExists, OSet, OAdd, OWriteCas, ORemove, ODelete, OUpdate, OWriteUpd, OSetX, OSubDoc, OTouch, OUpdDel}
+	kinds := []string{OGet, OGetX, OExists, OSet, OAdd, OWriteCas, ORemove, ODelete, OUpdate, OWriteUpd, OSetX, OSubDoc, OTouch, OUpdDel, OGetTouch, OGetExp}
 	ws := make([]int, len(kinds))
 	for i, k := range kinds {
 		ws[i] = w.Weights[k]
@@ -272,6 +278,8 @@ func genOp(r *rng.R, w Workload, client int, n *int, lastCas, staleCas map[strin
 		in.XName = "u1"
 	case OSubDoc:
 		in.Path = fmt.Sprintf("p%d", client)
+	case OTouch, OGetTouch:
+		in.Exp = 2000000000 + uint32(client)*100000 + uint32(*n) // absolute, far away, unique: a read identifies the touch it saw
 	}
 	return in
 }
